@@ -3,9 +3,10 @@
 set -euo pipefail
 export GOFLAGS=-mod=mod GOPROXY=off GOSUMDB=off GOTOOLCHAIN=local CGO_ENABLED=0
 export PATH="/opt/veriftools/go1.26.8/bin:$PATH"
-cd /verif/tools
-mkdir -p /verif/bin
-go build -o /verif/bin/simgo ./simgo
-go build -o /verif/bin/check ./check
-cd /verif/sim && go vet ./... >/dev/null
+VDIR="$(cd "$(dirname "$0")/.." && pwd)"
+cd "$VDIR/tools"
+mkdir -p "$VDIR/bin"
+go build -o "$VDIR/bin/simgo" ./simgo
+go build -o "$VDIR/bin/check" ./check
+cd "$VDIR/sim" && go vet ./... >/dev/null
 echo "setup ok"
